@@ -13,6 +13,9 @@ import itertools
 from mc import core, sched
 
 REQUESTS = [["R", "Y"], ["Y", "R"], ["Y", "Z"], ["R", "Y", "Z"], ["Z", "Y", "R"], ["Y", "R", "Z"]]
+# the same three equations installed directly in Model.equations (as compiled and hybrid models do), without the DSL: no memo entry exists for
+# them before the first evaluation
+RAW_REQUESTS = [["Q", "Y2"], ["Y2", "Q"], ["Q", "Y2", "Z2"], ["Y2", "Z2"]]
 
 
 def build():
@@ -32,6 +35,9 @@ def build():
     Y.equation = R * 1.0
     Z = m.converter("Z")
     Z.equation = R * 1.0
+    m.equations["Q"] = lambda t: cnt(m, t)
+    m.equations["Y2"] = lambda t: m.memoize("Q", t) * 1.0
+    m.equations["Z2"] = lambda t: m.memoize("Q", t) * 1.0
     return m, counter
 
 
@@ -102,7 +108,7 @@ def _subtree(arg):
 
 def run_part(ctx, cov):
     bound = 1 if ctx.tier == "quick" else 2
-    reqs = REQUESTS[:4] if ctx.tier == "quick" else REQUESTS
+    reqs = (REQUESTS[:4] + RAW_REQUESTS[:3]) if ctx.tier == "quick" else (REQUESTS + RAW_REQUESTS)
     # determinism: the same (request, prefix) twice gives identical points, choices and observation
     a = run_one(reqs[0], [])
     b = run_one(reqs[0], [])
